@@ -29,7 +29,7 @@ func init() { register(c17{}) }
 func (c17) Meta() core.Meta {
 	return core.Meta{
 		ID: "C17", Level: "exploration",
-		Rule: "plain build, case i = f(seed,i): purity monitor - a generated Map (JSON/XML shape, attribute and text entries, lists of maps that carry the sub-key fields) and MapSeq; every read-only method (ValuesFor*/ValueFor*/PathsFor*/PathForKeyShortest/Leaf*/Exists/Elements/Attributes/Root with plain, wildcard and indexed paths and sub-keys; Xml/XmlIndent/XmlWriter/Json/JsonIndent/JsonWriter/Gob/Copy/StringIndent/Struct/NewMap/AnyXml/j2x.MapToJson/x2j.MapToXml/Maps.XmlString; MapSeq.Xml/XmlIndent/StringIndent) is called and the receiver's fingerprint compared before/after; Copy: every container of the copy is mutated in place, the original must not change and no map or slice pointer may be shared. -race build, case i = one round: G in {2,4,8,16,32} goroutines (GOMAXPROCS in {2,4,16}) are released by a barrier and run a seeded mix of decode (NewMapXml / NewMapXmlReader over plain io.Readers / NewMapXmlSeq / NewMapJson / NewMapJsonReader), encode and query operations over ONE shared read-only Map, one shared MapSeq and private Maps (private UpdateValuesForPath / SetValueForPath / NewMap); every operation's result fingerprint must equal the result computed sequentially beforehand; any WARNING: DATA RACE block (deduplicated by the innermost mxj frame pair), any fatal 'concurrent map' error and any result mismatch is a violation. Overlap evidence: start/end ticks of every operation from one atomic counter; the distinct overlapping (opA, opB) kind pairs are counted and must reach a floor. Non-trivial: purity case with a list-valued entry / a round with >=2 goroutines; distinct by hash(map) / hash(round).",
+		Rule:        "plain build, case i = f(seed,i): purity monitor - a generated Map (JSON/XML shape, attribute and text entries, lists of maps that carry the sub-key fields) and MapSeq; every read-only method (ValuesFor*/ValueFor*/PathsFor*/PathForKeyShortest/Leaf*/Exists/Elements/Attributes/Root with plain, wildcard and indexed paths and sub-keys; Xml/XmlIndent/XmlWriter/Json/JsonIndent/JsonWriter/Gob/Copy/StringIndent/Struct/NewMap/AnyXml/j2x.MapToJson/x2j.MapToXml/Maps.XmlString; MapSeq.Xml/XmlIndent/StringIndent) is called and the receiver's fingerprint compared before/after; Copy: every container of the copy is mutated in place, the original must not change and no map or slice pointer may be shared. -race build, case i = one round: G in {2,4,8,16,32} goroutines (GOMAXPROCS in {2,4,16}) are released by a barrier and run a seeded mix of decode (NewMapXml / NewMapXmlReader over plain io.Readers / NewMapXmlSeq / NewMapJson / NewMapJsonReader), encode and query operations over ONE shared read-only Map, one shared MapSeq and private Maps (private UpdateValuesForPath / SetValueForPath / NewMap); every operation's result fingerprint must equal the result computed sequentially beforehand; any WARNING: DATA RACE block (deduplicated by the innermost mxj frame pair), any fatal 'concurrent map' error and any result mismatch is a violation. Overlap evidence: start/end ticks of every operation from one atomic counter; the distinct overlapping (opA, opB) kind pairs are counted and must reach a floor. Non-trivial: purity case with a list-valued entry / a round with >=2 goroutines; distinct by hash(map) / hash(round).",
 		Assumptions: []string{"the Go race detector reports happens-before races on the executions that occurred, not on all schedules", "package options are not changed while goroutines run (the property excludes it)"},
 		Anchors:     []string{"Map.Copy", "Map.ValuesForPath", "valuesForKeyPath", "hasKey", "Map.LeafNodes", "Map.Xml", "marshalMapToXmlIndent", "MapSeq.Xml", "Map.Json", "Map.Gob", "Map.StringIndent", "Map.Struct", "Map.NewMap", "Map.Elements", "Map.Attributes", "Map.Root"},
 		Floors:      map[string]int64{"purity:method-calls": 100000, "purity:indexed-path-with-subkeys": 1000, "copy:mutations": 5000, "conc:ops": 20000, "conc:rounds": 20},
@@ -211,7 +211,11 @@ func c17purity(c *core.Ctx) {
 		op{"XmlWriter", func() { m.XmlWriter(&bytes.Buffer{}); m.XmlIndentWriter(&bytes.Buffer{}, "", " ") }},
 		op{"Json", func() { m.Json(); m.Json(true) }},
 		op{"JsonIndent", func() { m.JsonIndent("", " ") }},
-		op{"JsonWriter", func() { m.JsonWriter(&bytes.Buffer{}); m.JsonWriterRaw(&bytes.Buffer{}); m.JsonIndentWriter(&bytes.Buffer{}, "", " ") }},
+		op{"JsonWriter", func() {
+			m.JsonWriter(&bytes.Buffer{})
+			m.JsonWriterRaw(&bytes.Buffer{})
+			m.JsonIndentWriter(&bytes.Buffer{}, "", " ")
+		}},
 		op{"Gob", func() { m.Gob() }},
 		op{"StringIndent", func() { m.StringIndent(); m.StringIndentNoTypeInfo(2) }},
 		op{"Struct", func() { m.Struct(&st) }},
@@ -275,7 +279,6 @@ func c17purity(c *core.Ctx) {
 		c.Sample(core.D{"kind": "purity", "map": before, "methods_called": len(ops) + 5})
 	}
 }
-
 
 // ---------------- concurrency round ----------------
 
@@ -348,7 +351,9 @@ func c17round(c *core.Ctx) {
 			return c17op{"q:ValuesForKey", func() string { return fpVals(shared.ValuesForKey(k)) }}
 		case 3:
 			k := pool[r.Intn(len(pool))]
-			return c17op{"q:PathsForKey", func() string { return sortedStrings(shared.PathsForKey(k)) + "#" + fmt.Sprint(len(strings.Split(shared.PathForKeyShortest(k), "."))) }}
+			return c17op{"q:PathsForKey", func() string {
+				return sortedStrings(shared.PathsForKey(k)) + "#" + fmt.Sprint(len(strings.Split(shared.PathForKeyShortest(k), ".")))
+			}}
 		case 4:
 			return c17op{"q:LeafNodes", func() string {
 				var s []string
